@@ -19,7 +19,7 @@ from nflows import transforms as T
 PROPERTY = "C08"
 RULE = (
     "(1) every well-formed wrapper program with <=6 (thorough <=7) nodes over 6 non-commuting leaves {2x+1, -0.5x+3, LeakyReLU(0.2), ReversePermutation(3), "
-    "MaskedAffineAutoregressive(3) with pattern weights, the same with a 2-d context}, forward and inverse, on a 2x3 batch, plus flat composites of 10..25 parts (parts handed over as generator / tuple / list); (2) MultiscaleCompositeTransform for every input shape with <=3 non-batch "
+    "MaskedAffineAutoregressive(3) with pattern weights, the same with a 2-d context}, forward and inverse, on a 2x3 batch, plus the empty composite as a part, flat composites of 10..25 parts (parts handed over as generator / tuple / list), every call made twice on the same object; (2) MultiscaleCompositeTransform for every input shape with <=3 non-batch "
     "dims of sizes 2..5, every split_dim <= ndim, 1..3 stages (stage k = x -> prime_k * x + 10^(k+1) + context value, so every stage must be handed the context), incl. the combinations its constructor must reject, plus the documented "
     "misuse errors. Non-trivial = program with >=2 leaves or a multiscale with >=2 stages."
 )
@@ -73,7 +73,7 @@ def leaves():
 def programs(n):
     """all ASTs with exactly n nodes: ("L", i) | ("I", child) | ("C", [children])"""
     if n == 1:
-        return [("L", i) for i in range(6)]
+        return [("L", i) for i in range(6)] + [("C", [])]  # the empty composite (identity, log-abs-det zeros(batch)) is a program of size one
     out = []
     for c in programs_cached(n - 1):
         out.append(("I", c))
@@ -150,9 +150,15 @@ def check_program(ast):
             ry, rl = interp(ast, X, inverse)  # the hand-chained evaluation is defined for every program over these leaves (an exception here is a harness error)
             try:
                 y, l = m.inverse(X, CTX) if inverse else m.forward(X, CTX)
+                y_again, l_again = m.inverse(X, CTX) if inverse else m.forward(X, CTX)  # the wrapper is used more than once
             except Exception as e:
                 out.append((name, "raises %s" % type(e).__name__, "%s %s raised %s although the hand-chained evaluation succeeds" % (show(ast), name, type(e).__name__)))
                 continue
+        if not (torch.is_tensor(y) and torch.is_tensor(l)):
+            out.append((name, "result is not a pair of tensors", "%s %s returned %s / %s" % (show(ast), name, type(y).__name__, type(l).__name__)))
+            continue
+        if not (torch.is_tensor(y_again) and torch.equal(y_again, y) and torch.is_tensor(l_again) and l_again.shape == l.shape and torch.equal(l_again, l)):
+            out.append((name, "second call on the same wrapper differs", "%s %s: the second call on the same object returns something else than the first" % (show(ast), name)))
         if y.shape != ry.shape or not torch.equal(y, ry):
             out.append((name, "outputs differ from hand-chained composition", "%s %s: outputs %s, hand-chained %s" % (show(ast), name, y.tolist(), ry.tolist())))
         if l.shape != rl.shape or not bool(((l - rl).abs() <= 1e-12 * (1 + rl.abs())).all()):
